@@ -370,6 +370,12 @@ def main():
         p2 = probe_search(pid, seed + 1, budget * 5, focus, skip)
         if p2.get('found'): probe = p2
     violation = None
+    # a function that has no contract of its own (e.g. a helper extracted by a refactoring) makes its callers unverifiable: failures in
+    # such a module are "needs contract work" (undecided) unless the bounded search replays a real failing input
+    unc = set(x.split('::')[0] for x in rep.get('uncontracted_fns', []))
+    needs_contract = [f for f, _ in new if f['module'] in unc]
+    if needs_contract and not probe.get('found'):
+        new = [(f, k) for f, k in new if f['module'] not in unc]
     if new:
         violation = dict(kind='failed-obligation', failed=[f for f, _ in new])
     elif probe.get('found'):
@@ -408,6 +414,9 @@ def main():
         if found: print('FAILING-INPUT: %s' % json.dumps(probe.get('case'))[:600])
         print('VIOLATION property=%s replay=%s%s' % (pid, rp, '' if found else ' no-failing-input-found'))
         sys.exit(1)
+    if needs_contract and not violation:
+        print('MACHINERY: %s have no contract (new helper function?); the obligations %s of %s could not be discharged and the bounded search found no failing input: undecided, needs contract work' % (
+            sorted(rep.get('uncontracted_fns', [])), sorted(set('%s::%s[%s]' % (f['module'], f['fn'], f['label']) for f in needs_contract)), pid)); sys.exit(2)
     if undecided and not prereq:
         print('MACHINERY: solver resource limit exceeded in %s and the bounded search found no failing input (undecided, not a verdict)' % sorted(set((f['module'], f['fn']) for f in undecided)))
         sys.exit(2)
